@@ -84,6 +84,16 @@ pub fn sm2_point_from_wire_unchecked(b: &[u8]) -> Option<gm_sm2::p256_ecc::Point
     Some(sm2_point_struct(&BigUint::from_bytes_be(&b[1..33]), &BigUint::from_bytes_be(&b[33..65])))
 }
 
+/// The same affine point in another Jacobian representation (x z^2, y z^3, z), z != 0: the form
+/// in which the library itself hands points out (exchange_1 / exchange_2 return them un-normalised).
+pub fn sm2_point_jacobian(x: &BigUint, y: &BigUint, z: &BigUint) -> gm_sm2::p256_ecc::Point {
+    let p = rsm2::with_curve(|c| c.p.clone());
+    let z = z % &p;
+    let z2 = (&z * &z) % &p;
+    let z3 = (&z2 * &z) % &p;
+    gm_sm2::p256_ecc::Point { x: sm2_mont(&((x * &z2) % &p)), y: sm2_mont(&((y * &z3) % &p)), z: sm2_mont(&z) }
+}
+
 pub fn sm2_point_to_ref(p: &gm_sm2::p256_ecc::Point) -> rsm2::Pt {
     if p.is_zero() {
         return None;
@@ -101,6 +111,36 @@ pub fn sm9_mont(x: &BigUint) -> [u64; 4] {
 
 pub fn sm9_point_struct(x: &BigUint, y: &BigUint) -> gm_sm9::points::Point {
     gm_sm9::points::Point { x: sm9_mont(x), y: sm9_mont(y), z: sm9_mont(&BigUint::one()) }
+}
+
+pub fn sm9_point_jacobian(x: &BigUint, y: &BigUint, z: &BigUint) -> gm_sm9::points::Point {
+    let p = rsm9::with(|s| s.p.clone());
+    let z = z % &p;
+    let z2 = (&z * &z) % &p;
+    let z3 = (&z2 * &z) % &p;
+    gm_sm9::points::Point { x: sm9_mont(&((x * &z2) % &p)), y: sm9_mont(&((y * &z3) % &p)), z: sm9_mont(&z) }
+}
+
+/// How a G1 point on the wire (04||x||y) is handed to the library: "affine" (z = 1), "jac:<hex z>"
+/// (another representation of the SAME point) or "infinity" (the library's own Point::zero()).
+pub fn sm9_point_form(b: &[u8], form: &str) -> Option<gm_sm9::points::Point> {
+    if form == "infinity" {
+        return Some(gm_sm9::points::Point::zero());
+    }
+    if b.len() != 65 {
+        return None;
+    }
+    let (x, y) = (BigUint::from_bytes_be(&b[1..33]), BigUint::from_bytes_be(&b[33..65]));
+    match form.strip_prefix("jac:") {
+        Some(h) => {
+            let z = BigUint::parse_bytes(h.as_bytes(), 16)?;
+            if z.is_zero() {
+                return None;
+            }
+            Some(sm9_point_jacobian(&x, &y, &z))
+        }
+        None => Some(sm9_point_struct(&x, &y)),
+    }
 }
 
 pub fn sm9_point_from_ref(p: &rsm9::G1) -> gm_sm9::points::Point {
